@@ -22,6 +22,8 @@ func main() {
 	switch os.Args[1] {
 	case "ops":
 		opsCmd(os.Args[2:])
+	case "walk":
+		walkCmd(os.Args[2:])
 	case "check":
 		os.Exit(checkCmd(os.Args[2:]))
 	case "list":
@@ -140,4 +142,46 @@ func opsCmd(args []string) {
 		fmt.Printf("%s  x%d\n    %s %s\n    witness: %s\n", k, seen[k], f.Pos, f.Detail, f.Witness)
 	}
 	fmt.Printf("paths=%d closures=%d shape=%d vjp=%d fin=%d state=%d funcs=%d wall=%v\n", e.Paths, e.ClosureRuns, e.ShapeChecks, e.VJPChecks, e.FinChecks, e.StateChecks, len(e.Funcs), time.Since(t0))
+}
+
+func walkCmd(args []string) {
+	fs := flag.NewFlagSet("walk", flag.ExitOnError)
+	repo := fs.String("repo", "/repo", "repo")
+	k := fs.Int("k", 2, "exhaustive steps")
+	fs.Parse(args)
+	t0 := time.Now()
+	p, err := core.Load(*repo)
+	if err != nil {
+		fmt.Println("load error:", err)
+		os.Exit(2)
+	}
+	a, err := spec.ResolveAnchors(p)
+	if err != nil {
+		fmt.Println("anchors:", err)
+		os.Exit(2)
+	}
+	e := engine.NewOpEngine(p, a)
+	st := &engine.WalkStats{}
+	progs := engine.TemplatePrograms()
+	for kk := 1; kk <= *k; kk++ {
+		progs = append(progs, engine.EnumeratePrograms([]bool{true}, kk)...)
+		progs = append(progs, engine.EnumeratePrograms([]bool{true, false}, kk)...)
+	}
+	progs = append(progs, engine.RandomPrograms(1, 50, 4, 7)...)
+	for _, pr := range progs {
+		e.RunProgram(pr, st)
+	}
+	seen := map[string]int{}
+	for _, f := range e.Findings {
+		k := f.Rule + "|" + f.Construct + "|" + f.What
+		if f.Undecided {
+			k = "UNDECIDED " + k
+		}
+		if seen[k] == 0 {
+			fmt.Printf("%s\n    %s %s\n    witness: %s\n", k, f.Pos, f.Detail, f.Witness)
+		}
+		seen[k]++
+	}
+	fmt.Println(seen)
+	fmt.Printf("programs=%d gradchecks=%d statechecks=%d closures=%d wall=%v\n", st.Programs, st.GradChecks, st.StateChecks, st.ClosureRuns, time.Since(t0))
 }
